@@ -62,6 +62,28 @@ def p5(aut, allowed, ast_module, slot_order=None):
     return out
 
 
+def p5_nothing_dropped(aut):
+    """every value a callee returned on the path to a returned node is stored in that node (directly, through a node built here, or in a list)"""
+    out = []
+    seen = set()
+    for r in aut.returns:
+        rec = r.get("rec")
+        if r["kind"] != "node" or not rec:
+            continue
+        dropped = [t for t in rec.get("produced", []) if t not in set(rec.get("covered", []))]
+        oid = "%s@L%d:nothing-dropped" % (rec["cls"], rec["line"])
+        key = (oid, bool(dropped))
+        if key in seen:
+            continue
+        seen.add(key)
+        out.append({"id": oid, "holds": not dropped,
+                    "detail": "everything parsed on the way is stored in the node" if not dropped else
+                    "on a path to this %s, %d parsed value(s) (consuming step(s) %s) are not stored in any slot: what was written in the source is lost" % (rec["cls"], len(dropped), dropped)})
+    # a holds-record and a fails-record for the same constructor call: the failure wins
+    failed = {o["id"] for o in out if not o["holds"]}
+    return [o for o in out if not (o["holds"] and o["id"] in failed)]
+
+
 def p4(aut):
     out = []
     for r in aut.raises:
